@@ -15,7 +15,7 @@ variable {N : String → Prop} {p : α → Bool}
 
 section block
 attribute [local irreducible] CtxOK Ctx.mergeAdd Ctx.mergeSub Ctx.mulBy Ctx.divBy Ctx.addRhs Ctx.addVar
-  Ctx.fromRhs Ctx.fromVar Ctx.new ctxToExp sumExps isAux
+  Ctx.fromRhs Ctx.fromVar Ctx.new ctxToExp sumExps isAux retainedFlagsE
 variable (hN : N "") (hp : Closed p) (hB : BTrack p)
 include hN hp hB
 
